@@ -185,23 +185,32 @@ DelGrant(S, id, e) == \E p \in S : p.del /\ Applies(p, id, e)
 
 CanWrite(id) == id.origin = "user" /\ id.scope = "rw"
 
-\* A modification list is a sequence of items [k \in {"pres","rem","purge"}, a, v : set of strings].
+\* A modification list is a sequence of items [k \in {"pres","rem","purge","set"}, a, v : set of strings]
+\* ("set" replaces the whole value set of a: Modify::Set, used by SCIM PUT / batch paths).
 AddedVals(pre, post, a)   == AttrVals(post, a) \ AttrVals(pre, a)
 RemovedVals(pre, post, a) == AttrVals(pre, a) \ AttrVals(post, a)
 NamedAttrs(ml) == {ml[i].a : i \in DOMAIN ml}
-NamedClassVals(ml) == UNION {ml[i].v : i \in {j \in DOMAIN ml : ml[j].a = "class"}}
+SetItems(ml) == {i \in DOMAIN ml : ml[i].k = "set"}
+\* class values a request is about: the ones it lists; a Set on class is about every class of the entry too
+NamedClassVals(ml, pre) ==
+  UNION {ml[i].v : i \in {j \in DOMAIN ml : ml[j].a = "class"}}
+    \cup (IF \E i \in SetItems(ml) : ml[i].a = "class" THEN Classes(pre) ELSE {})
 PurgesClass(ml) == \E i \in DOMAIN ml : ml[i].k = "purge" /\ ml[i].a = "class"
 
 \* what a successful user modify with request ml did to one entry (pre -> post) must be granted:
 \* every attribute the request names and that gained / lost a value, every class value it names
-\* and that was added / removed
-ModifyEntryOk(S, id, ml, pre, post) ==
+\* and that was added / removed; on an entry the request was applied to, a Set of attribute a counts
+\* as BOTH adding its new values and removing every existing value of a
+ModifyEntryOk(S, id, ml, pre, post, applied) ==
   LET g == ModGrant(S, id, pre) IN
   /\ \A a \in NamedAttrs(ml) :
         /\ (AddedVals(pre, post, a) # {} => a \in g.pres)
         /\ (RemovedVals(pre, post, a) # {} => a \in g.rem)
-  /\ (AddedVals(pre, post, "class") \cap NamedClassVals(ml)) \subseteq g.pcls
-  /\ (RemovedVals(pre, post, "class") \cap NamedClassVals(ml)) \subseteq g.rcls
+  /\ (AddedVals(pre, post, "class") \cap NamedClassVals(ml, pre)) \subseteq g.pcls
+  /\ (RemovedVals(pre, post, "class") \cap NamedClassVals(ml, pre)) \subseteq g.rcls
+  /\ applied => \A i \in SetItems(ml) :
+        /\ (ml[i].v # {} => ml[i].a \in g.pres)
+        /\ (AttrVals(pre, ml[i].a) # {} => ml[i].a \in g.rem)
 
 \* rules that hold regardless of grants, for any entry around a successful user operation
 RegardlessOk(op, pre, post) ==
@@ -210,13 +219,22 @@ RegardlessOk(op, pre, post) ==
   /\ ("recycled" \in RemovedVals(pre, post, "class") => op = "revive")
   /\ (pre.live = "tombstone" => post = pre)
 
-\* successful modify / revive (revive = removal of class "recycled"): Pre, Post are id -> entry
-L1Modify(S, id, op, ml, Pre, Post) ==
+\* successful modify / revive (revive = removal of class "recycled"): Pre, Post are id -> entry,
+\* T the entries the request was applied to
+L1Modify(S, id, op, ml, T, Pre, Post) ==
   /\ CanWrite(id)
   /\ ~PurgesClass(ml)
   /\ \A x \in DOMAIN Pre \cap DOMAIN Post :
-        /\ ModifyEntryOk(S, id, ml, Pre[x], Post[x])
+        /\ ModifyEntryOk(S, id, ml, Pre[x], Post[x], x \in T)
         /\ RegardlessOk(op, Pre[x], Post[x])
+
+\* successful batch modify: Mls maps each addressed entry to its own modification list
+L1Batch(S, id, Mls, Pre, Post) ==
+  /\ CanWrite(id)
+  /\ \A x \in DOMAIN Mls : ~PurgesClass(Mls[x])
+  /\ \A x \in DOMAIN Pre \cap DOMAIN Post :
+        /\ ModifyEntryOk(S, id, IF x \in DOMAIN Mls THEN Mls[x] ELSE <<>>, Pre[x], Post[x], x \in DOMAIN Mls)
+        /\ RegardlessOk("modify", Pre[x], Post[x])
 
 \* successful create: req is the entry as submitted, Pre/Post as above
 L1Create(S, id, req, Pre, Post) ==
@@ -243,10 +261,13 @@ WriteSig(S, id, op, ml, Pre, Post) ==
 
 \* ============================== L2 : writes =============================
 \* modify_allow_operation_per_entry + apply_modify_access for one entry
-ReqPres(ml) == {ml[i].a : i \in {j \in DOMAIN ml : ml[j].k = "pres"}}
-ReqRem(ml)  == {ml[i].a : i \in {j \in DOMAIN ml : ml[j].k \in {"rem", "purge"}}}
-ReqPresCls(ml) == UNION {ml[i].v : i \in {j \in DOMAIN ml : ml[j].k = "pres" /\ ml[j].a = "class"}}
-ReqRemCls(ml)  == UNION {ml[i].v : i \in {j \in DOMAIN ml : ml[j].k = "rem" /\ ml[j].a = "class"}}
+ReqPres(ml) == {ml[i].a : i \in {j \in DOMAIN ml : ml[j].k \in {"pres", "set"}}}
+ReqRem(ml)  == {ml[i].a : i \in {j \in DOMAIN ml : ml[j].k \in {"rem", "purge", "set"}}}
+\* a Set on class is judged on the difference to the entry's current classes
+ReqPresCls(ml, e) == UNION {ml[i].v : i \in {j \in DOMAIN ml : ml[j].k = "pres" /\ ml[j].a = "class"}}
+                       \cup UNION {ml[i].v \ Classes(e) : i \in {j \in SetItems(ml) : ml[j].a = "class"}}
+ReqRemCls(ml, e)  == UNION {ml[i].v : i \in {j \in DOMAIN ml : ml[j].k = "rem" /\ ml[j].a = "class"}}
+                       \cup UNION {Classes(e) \ ml[i].v : i \in {j \in SetItems(ml) : ml[j].a = "class"}}
 
 ProtectedMod == ProtectedPres \ {"sync_object"}
 \* modify_protected_entry_attrs: the attributes that stay modifiable on a protected entry
@@ -297,12 +318,19 @@ L2ModifyAllowed(S, Y, id, ml, e) ==
   /\ ReqPres(ml) \cup ReqRem(ml) # {}
   /\ ~m.deny
   /\ ReqPres(ml) \subseteq m.pres /\ ReqRem(ml) \subseteq m.rem
-  /\ ReqPresCls(ml) \subseteq m.pcls /\ ReqRemCls(ml) \subseteq m.rcls
+  /\ ReqPresCls(ml, e) \subseteq m.pcls /\ ReqRemCls(ml, e) \subseteq m.rcls
 
 \* the write paths select their targets with an impersonated search first
 L2WriteClass(S, Y, E, id, fa, cands, allowed(_)) ==
   LET vis == L2Visible(S, E, id, fa, cands) IN
   IF vis = {} THEN "nomatch" ELSE IF \A x \in vis : allowed(x) THEN "pass" ELSE "denied"
+
+\* batch_modify: targets are addressed by uuid (no hidden-entry mask), all of them must be visible
+L2BatchClass(S, Y, E, id, cands, Mls) ==
+  LET vis == L2Visible(S, E, id, {"uuid"}, cands) IN
+  IF vis = {} THEN "nomatch"
+  ELSE IF Cardinality(vis) # Cardinality(DOMAIN Mls) THEN "missing"
+  ELSE IF \A x \in vis : x \in DOMAIN Mls /\ L2ModifyAllowed(S, Y, id, Mls[x], E[x]) THEN "pass" ELSE "denied"
 
 L2DeleteAllowed(S, id, e) ==
   /\ CanWrite(id) /\ ~e.sys /\ Classes(e) \cap ProtectedPres = {}
@@ -324,6 +352,7 @@ ApplyMl(ml, attrs) ==
            cur == IF m.a \in DOMAIN attrs THEN attrs[m.a] ELSE {}
            nv == CASE m.k = "pres" -> cur \cup m.v
                    [] m.k = "rem" -> cur \ m.v
+                   [] m.k = "set" -> m.v
                    [] OTHER -> {}
            D == IF nv = {} THEN DOMAIN attrs \ {m.a} ELSE DOMAIN attrs \cup {m.a}
        IN  ApplyMl(Tail(ml), [a \in D |-> IF a = m.a THEN nv ELSE attrs[a]])
